@@ -1,12 +1,13 @@
-(* TxExec/ProofsBlock.v — the VET / VTHO totals over a whole block flow (Adopt*, then DistributeRewards if PoS is active). *)
+(* TxExec/ProofsBlock.v — the VET / VTHO totals over a whole block flow (Adopt*, then DistributeRewards if PoS is active),
+   EXACT: including what self-destructs to self destroy. *)
 From Coq Require Import ZArith List Bool Lia.
-From Verif Require Import Ledger.Model Ledger.Proofs TxExec.Model TxExec.Proofs.
+From Verif Require Import Ledger.Model Ledger.Proofs TxExec.Model TxExec.Proofs TxExec.ProofsEffects.
 Import ListNotations.
 Open Scope Z_scope.
 
 Section Block.
   Variables W O : Type.
-  Variable clause_result : nat -> Z -> state W -> cres W O.
+  Variable clause_result : env -> txn -> nat -> Z -> state W -> cres W O.
   Variable write_credit : Z -> Z -> Z -> W -> W.
 
   Definition sum_reward (rcs : list (receipt O)) : Z := fold_right (fun rc a => r_reward O rc + a) 0 rcs.
@@ -16,26 +17,41 @@ Section Block.
   Lemma sum_paid_app a b : sum_paid (a ++ b) = sum_paid a + sum_paid b.
   Proof. unfold sum_paid. induction a; cbn [app fold_right]; [reflexivity|]. rewrite IHa. lia. Qed.
 
+  (* what the adopted transactions of a flow burn by self-destructs to self: sum of tx_burned, each on the state the flow had
+     when it adopted that transaction (specification companion of adopt_all) *)
+  Fixpoint flow_burned (e : env) (used : Z) (txs : list (txn * credit_info)) (st : state W) : Z * Z :=
+    match txs with
+    | [] => (0, 0)
+    | (t, ci) :: rest =>
+      match adopt W O clause_result write_credit e used t ci st with
+      | Rejected _ _ st' => flow_burned e used rest st'
+      | Adopted _ _ st' rc =>
+        let b := tx_burned W O clause_result e t ci st in
+        let r := flow_burned e (used + r_gas_used O rc) rest st' in (fst b + fst r, snd b + snd r)
+      end
+    end.
+
   Lemma adopt_all_totals e dom :
     let T := e_time e in let S := e_stop e in
-    clauses_neutral W O clause_result T S dom -> NoDup dom -> In (e_benef e) dom ->
+    clause_ops_ok W O clause_result dom -> NoDup dom -> In (e_benef e) dom ->
     forall txs used st rcs used' st' rcs',
     adopt_all W O clause_result write_credit e used txs st rcs = (used', st', rcs') ->
     Forall (fun rc => In (r_payer O rc) dom) rcs' ->
     exists new, rcs' = rcs ++ new /\
-      sum_eng T S dom (l_acc (fst st')) = sum_eng T S dom (l_acc (fst st)) + sum_reward new - sum_paid new /\
-      sum_bal dom (l_acc (fst st')) = sum_bal dom (l_acc (fst st)).
+      sum_eng T S dom (l_acc (fst st')) =
+        sum_eng T S dom (l_acc (fst st)) + sum_reward new - sum_paid new - snd (flow_burned e used txs st) /\
+      sum_bal dom (l_acc (fst st')) = sum_bal dom (l_acc (fst st)) - fst (flow_burned e used txs st).
   Proof.
     intros T S N ND HB. induction txs as [|[t ci] rest IH]; intros used st rcs used' st' rcs' H HP; cbn in H.
     - inversion H; subst. exists []. rewrite app_nil_r. cbn. repeat split; lia.
-    - destruct (adopt _ _ _ _ _ _ _ _ _) as [s1|s1 rc] eqn:EA.
+    - cbn [flow_burned]. destruct (adopt _ _ _ _ _ _ _ _ _) as [s1|s1 rc] eqn:EA.
       + apply adopt_rejected_unchanged_lemma in EA. subst s1. eapply IH; eauto.
       + destruct (IH _ _ _ _ _ _ H HP) as [new [E1 [E2 E3]]].
         assert (HIn : In (r_payer O rc) dom).
         { rewrite Forall_forall in HP. apply HP. rewrite E1. apply in_or_app. left. apply in_or_app. right. left. reflexivity. }
         unfold adopt in EA. destruct (_ <? _); [discriminate|].
         destruct (exec_tx _ _ _ _ _ _ _ _) as [|s2 rc2] eqn:EX; [discriminate|]. inversion EA; subst s2 rc2.
-        pose proof (vtho_delta_tx_lemma W O clause_result write_credit e t ci st s1 rc dom N ND HIn HB EX) as [D1 D2].
+        pose proof (tx_totals_exact_lemma W O clause_result write_credit e t ci st s1 rc dom N ND HIn HB EX) as [D1 D2].
         exists (rc :: new). rewrite <- app_assoc in E1. split; [exact E1|].
         change (rc :: new) with ([rc] ++ new). rewrite sum_reward_app, sum_paid_app. cbn.
         fold T S in D1. split; lia.
@@ -51,15 +67,15 @@ Section Block.
       (used, (distribute (e_time e) (e_stop e) (fst st1) (e_benef e) deleg reward perc has_delegations, snd st1), rcs)
     end.
 
-  Theorem vtho_delta_block_lemma e dom txs st staking deleg used st' rcs :
+  Theorem block_totals_exact_lemma e dom txs st staking deleg used st' rcs :
     let T := e_time e in let S := e_stop e in
-    clauses_neutral W O clause_result T S dom -> NoDup dom -> In (e_benef e) dom -> In deleg dom ->
+    clause_ops_ok W O clause_result dom -> NoDup dom -> In (e_benef e) dom -> In deleg dom ->
     block_flow e txs st staking deleg = (used, st', rcs) ->
     Forall (fun rc => In (r_payer O rc) dom) rcs ->
     sum_eng T S dom (l_acc (fst st')) =
       sum_eng T S dom (l_acc (fst st)) + sum_reward rcs - sum_paid rcs
-      + (match staking with Some (reward, _, _, _) => reward | None => 0 end) /\
-    sum_bal dom (l_acc (fst st')) = sum_bal dom (l_acc (fst st)).
+      + (match staking with Some (reward, _, _, _) => reward | None => 0 end) - snd (flow_burned e 0 txs st) /\
+    sum_bal dom (l_acc (fst st')) = sum_bal dom (l_acc (fst st)) - fst (flow_burned e 0 txs st).
   Proof.
     intros T S N ND HB HD. unfold block_flow.
     destruct (adopt_all _ _ _ _ _ _ _ _ _) as [[u s1] rs] eqn:EA.
@@ -68,5 +84,36 @@ Section Block.
       cbn [fst]. fold T S. rewrite distribute_eng, distribute_bal by assumption. fold T S in E2. split; lia.
     - destruct (adopt_all_totals e dom N ND HB _ _ _ _ _ _ _ EA HP) as [new [E1 [E2 E3]]]. cbn in E1. subst new.
       fold T S in E2. split; lia.
+  Qed.
+
+  (* when no clause performs a self-destruct to self nothing is burned *)
+  Definition no_self_destruct_to_self : Prop :=
+    forall e t i g st o, In o (cr_ops _ _ (clause_result e t i g st)) -> self_destruct_to_self o = false.
+
+  Lemma burned_by_none T S effs :
+    (forall p o, In p effs -> In o (cr_ops W O (snd p)) -> self_destruct_to_self o = false) -> burned_by W O T S effs = (0, 0).
+  Proof.
+    induction effs as [|p t IH]; intros H; [reflexivity|]. rewrite burned_by_cons.
+    rewrite IH by (intros q o Hq; apply H; right; exact Hq).
+    rewrite burned_none by (intros o Ho; apply (H p o); [left; reflexivity|exact Ho]). reflexivity.
+  Qed.
+
+  Lemma effects_in cr T S cs : forall i lft st p, In p (effects_of W O cr T S i cs lft st) -> exists j g s, snd p = cr j g s.
+  Proof.
+    induction cs as [|c rest IH]; intros i lft st p H; [contradiction|]. cbn [effects_of] in H. cbv zeta in H.
+    destruct H as [<-|H]; [eexists _, _, _; reflexivity|]. eapply IH; exact H.
+  Qed.
+
+  Lemma tx_burned_none (NS : no_self_destruct_to_self) e t ci st : tx_burned W O clause_result e t ci st = (0, 0).
+  Proof.
+    unfold tx_burned. destruct (any_error _ _ _); [reflexivity|]. apply burned_by_none.
+    intros p o Hp Ho. unfold tx_effects in Hp. destruct (resolve t); [contradiction|]. destruct (buy_gas _ _ _ _); [contradiction|].
+    apply effects_in in Hp. destruct Hp as [j [g [s E]]]. rewrite E in Ho. exact (NS e t j g s o Ho).
+  Qed.
+
+  Lemma flow_burned_none (NS : no_self_destruct_to_self) e txs : forall used st, flow_burned e used txs st = (0, 0).
+  Proof.
+    induction txs as [|[t ci] rest IH]; intros used st; [reflexivity|]. cbn [flow_burned].
+    destruct (adopt _ _ _ _ _ _ _ _ _); [apply IH|]. rewrite tx_burned_none by exact NS. rewrite IH. reflexivity.
   Qed.
 End Block.
